@@ -386,7 +386,7 @@ def run(run):
     run.bound = {"injections": 2 if th else 1, "bases": len(cases), "injection_kinds": 11, "entries": 7}
     run.assumptions += ["bases and site enumeration from the frozen spec model",
                         "kinds the specification makes custom must be refused in strict mode; extension-definition flavours are judged only through flag <=> strict re-parse"]
-    run.pmap(run_case, cases)
+    run.pmap(run_case, cases, order_independent=True)
     run.part.sample({"version": "2.1", "key": "observables:file", "label": "max", "site": ["extensions", "windows-pebinary-ext", "sections", 0, "hashes"], "injection": "non-vocabulary-hash", "allow_custom": True,
                      "expect": "has_custom true and strict re-parse refused"})
     run.part.sample({"version": "2.0", "key": "observables:email-message", "label": "max", "site": ["objects", "0", "body_multipart", 0], "injection": "x-property", "allow_custom": False, "expect": "refused"})
